@@ -421,7 +421,11 @@ func (w *World) errIsFatal(f *Fn, call *ast.CallExpr) bool {
 			return false
 		}
 		if w.terminates(is.Body.List) {
-			return true
+			// leaving the loop iteration (continue/break) is not failing the function
+			if b, isBranch := is.Body.List[len(is.Body.List)-1].(*ast.BranchStmt); !isBranch || b.Tok == token.GOTO {
+				return true
+			}
+			return false
 		}
 		// body ends in y.Check(err)
 		if n := len(is.Body.List); n > 0 {
@@ -497,4 +501,13 @@ var litRoles = map[string]func(w *World) Sel{
 	"badger.DB.MaxVersion$update": func(w *World) Sel {
 		return selPred("any", func(w *World, f *Fn, n ast.Node) bool { _, ok := n.(*ast.IfStmt); return ok })
 	},
+}
+
+func isBuiltin(w *World, c *ast.CallExpr, name string) bool {
+	id, ok := unparen(c.Fun).(*ast.Ident)
+	if !ok {
+		return false
+	}
+	b, ok := w.Use(id).(*types.Builtin)
+	return ok && b.Name() == name
 }
